@@ -257,6 +257,21 @@ m("M07e_subtree_skip_no_count", ["C07"], [("pdf/src/object/types.rs", "         
 m("M07f_num_pages_kids", ["C07"], [("pdf/src/file.rs", "        self.trailer.root.pages.count\n", "        self.trailer.root.pages.kids.len() as u32\n")], expect="C07-G3", note="nested trees")
 m("M07g_cropbox_from_media", ["C07"], [("pdf/src/object/types.rs", "            None => match inherit(&self.parent, |pt| pt.crop_box)? {", "            None => match inherit(&self.parent, |pt| pt.media_box)? {")], expect="C07-G2")
 
+# ------------------------------------------------------------------ C15
+m("M15a_no_type_insert", ["C15"], [("pdf_derive/src/lib.rs", "        Some(ref name) => quote! {\n            dict.insert(\"Type\", pdf::primitive::Primitive::Name(#name.into()));\n        },", "        Some(ref name) if name.ends_with(\"__never\") => quote! {\n            dict.insert(\"Type\", pdf::primitive::Primitive::Name(#name.into()));\n        },\n        Some(_) => quote! {},")],
+  expect="C15-KEYS", note="derived writers stop writing /Type")
+m("M15b_other_not_base", ["C15"], [("pdf_derive/src/lib.rs", "    let init_dict = if let Some(other) = other {\n        quote! {\n            let mut dict = self.#other.clone();\n        }", "    let init_dict = if let Some(other) = other {\n        quote! {\n            let _ = &self.#other;\n            let mut dict = pdf::primitive::Dictionary::new();\n        }")],
+  expect="C15-KEYS", note="catch-all entries dropped by every model that has one")
+m("M15c_reader_get_not_remove", ["C15"], [("pdf_derive/src/lib.rs", "                    match dict.remove(#key) {\n                        Some(primitive) =>", "                    match dict.get(#key).cloned() {\n                        Some(primitive) =>")],
+  expect="C15-KEYS", note="recognised keys stay in the catch-all and are written twice / shadow later edits")
+m("M15d_enum_name_ignored", ["C15"], [("pdf_derive/src/lib.rs", "        let mut ser_code: Vec<_> = pairs\n            .iter()\n            .map(|(name, var)| {\n                quote! {\n                    #var => #name\n                }\n            })",
+   "        let mut ser_code: Vec<_> = pairs\n            .iter()\n            .map(|(name, var)| {\n                let name = var.to_string().rsplit(\"::\").next().unwrap().trim().to_string();\n                let _ = name.len();\n                quote! {\n                    #var => #name\n                }\n            })")],
+  expect="C15-ENUM", note="#[pdf(name=..)] ignored by the enum writer (Counter: D r R a A)")
+m("M15e_action_no_s", ["C15"], [("pdf/src/object/types.rs", '                dict.insert("S", Name::from("GoTo"));\n', "")], expect="C15-KEYS-H")
+m("M15f_xobject_subtype", ["C15"], [("pdf/src/object/types.rs", 'XObject::Form(s) => ("Form", s.stream.to_pdf_stream(update)?),', 'XObject::Form(s) => ("Frm", s.stream.to_pdf_stream(update)?),')], expect="C15-ENUM",
+  note="form XObjects written with a /Subtype the reader does not know")
+m("M15g_default_not_written", ["C15"], [("pdf_derive/src/lib.rs", "        if attrs.skip | attrs.other {\n            quote!()", "        if attrs.skip | attrs.other | attrs.default.is_some() {\n            quote!()")], expect="C15-KEYS", note="defaulted fields never written: non-default values are lost")
+
 
 def gen_patch(mu):
     files = {}
